@@ -21,8 +21,10 @@ from fractions import Fraction
 
 import core
 import gen
+from c20_vocab import vocab_category
 
-PROOF_MODULES = ["UnytProofs.C20", "UnytProofs.C20Tab0", "UnytProofs.C20Tab1", "UnytProofs.C20Tab2", "UnytProofs.C20Names"]
+PROOF_MODULES = ["UnytProofs.C20", "UnytProofs.C20Tab0", "UnytProofs.C20Tab1", "UnytProofs.C20Tab2", "UnytProofs.C20Names",
+                 "UnytProofs.C20Syntax", "UnytProofs.C20Total"]
 HERE = os.path.dirname(os.path.abspath(__file__))
 LIMIT = 5.0  # seconds per request on the real parser
 
@@ -437,9 +439,9 @@ PROBES = [
     "m+m", "m-m", "m+s", "2+3", "m+s-s", "m#foo", "m # foo", "Symbol('m')", "Integer(2)*m", "Rational(1,2)*m", "Float(2)*m", "Float('2.5')*m",
     "sqrt(m,)", "sqrt(m,s)", "m*[1][0]", "m*(1,2)[0]", "m*-(1==1)", "m*\\\ns", "2//1*m", "m<s", "m==s", "m,s", "[m]", "m@s", "~m", "m^s", "2^3", "m|s",
     "'m'", "\"m\"", "sqrt('4')", "abs(-2)*m", "__import__('os')", "().__class__", "m.name", "exp(0)*m", "len('ab')*m", "print(1)", "open('x')",
-    "m if 1 else s", "not m", "m or s", "lambda: m", "m;s", "m:s", "m=s", "m$", "m!", "m?", "m`",
+    "Symbol('')", "m if 1 else s", "not m", "m or s", "lambda: m", "m;s", "m:s", "m=s", "m$", "m!", "m?", "m`",
     # resource probes
-    "2**sqrt(-2)", "m**sqrt(-2)", "m**sqrt(2)", "km**sqrt(-1)",
+    "(-8)**sqrt(1/3)", "2**sqrt(-2)", "m**sqrt(-2)", "m**sqrt(2)", "km**sqrt(-1)",
     "9**9**9**9", "m**9**9**9", "1e999999999*m", "1e-999999999*m", "0/0", "1/0", "1/(1/0)", "10**5000*m",
 ]
 
@@ -538,7 +540,7 @@ def run(tier, seed):
     # ------------------------------------------------------------------ oracles + correspondence on strings
     for (origin, s), rep, m in zip(strings, replies, mreplies):
         r = rep["r"]
-        voc = rep.get("vocab")
+        voc = rep.get("vocab") if r not in ("hang", "died") else vocab_category(s)
         chk.case(("str", s), {"origin": origin, "text": s, "real": r, "model": m[:2]} if origin == "grammar" and len(chk.samples) < 6 else None)
         chk.count(f"{origin}:{r}")
         mk = m[0] + (":" + m[1] if m[0] == "err" else "")
@@ -549,7 +551,8 @@ def run(tier, seed):
         elif r == "died":
             chk.fail("died", f"Unit({s!r}) killed the interpreter", {"python": snip_hang(s), "text": s})
         elif r == "exc":
-            chk.fail(f"escape|{rep['exc']}|{rep['trig']}", f"Unit({s!r}) raised {rep['exc']}, not UnitParseError", {"python": snip_total(s), "text": s})
+            key = f"escape|{rep['exc']}|{rep['trig']}" if voc is None else "escape|outside-vocabulary"
+            chk.fail(key, f"Unit({s!r}) raised {rep['exc']}, not UnitParseError", {"python": snip_total(s), "text": s})
         elif r == "ok":
             if voc is not None:
                 chk.fail(f"vocab|{voc}", f"Unit({s!r}) accepted text outside the unit vocabulary ({voc})", {"python": snip_vocab(s), "text": s})
@@ -559,7 +562,7 @@ def run(tier, seed):
                 for which in ("str", "repr"):
                     v = rep["rt_" + which]
                     if v != "same":
-                        how = "fails" if rep["kind"] == "non-rational-exponent" else v if v.startswith("raises") else "differs"
+                        how = "fails" if rep["kind"] == "irrational-exponent" else v if v.startswith("raises") else "differs"
                         chk.fail(f"reparse|{which}|{how}|{rep['kind']}", f"Unit({which}(u)) for u = Unit({s!r}) [{rep[which]!r}]: {v}",
                                  {"python": snip_reparse_str(s, which), "text": s})
         # -- correspondence
@@ -655,7 +658,8 @@ def run(tier, seed):
                 q = rng.choice(G.exps)
                 prog.append(["powq", f"{q.numerator}/{q.denominator}"])
             elif r < 0.88:
-                prog.append(["powf", repr(float(rng.choice([0.5, -0.5, 1.5, 2.0, -1.0, 0.25, 1 / 3, 2 / 3, -1.5, 3.0])))])
+                prog.append(["powf", repr(rng.choice([0.5, -0.5, 1.5, 2.0, -1.0, 0.25, 1 / 3, 2 / 3, -1.5, 3.0,
+                                                      rng.randint(-12, 12) / rng.choice([2, 3, 4, 5, 8]) or 2.5]))])
             elif r < 0.92:
                 prog.append(["sqrt", ""])
             elif r < 0.96:
@@ -668,7 +672,10 @@ def run(tier, seed):
     fixed = [[["unit", a]] for a in G.atoms] + [[["unit", ""]], [["unit", "m"], ["div", "m"]], [["unit", "m"], ["powq", "-1/1"]],
              [["unit", "m"], ["powq", "-1/2"]], [["unit", "km"], ["div", "m"], ["simplify", ""]], [["unit", "delta_degC"], ["mul", "m"]],
              [["unit", "degC"], ["powq", "2/1"]], [["unit", "%"], ["powq", "2/1"]], [["unit", "m"], ["coeff", "-3/2"]],
-             [["unit", "degC"], ["mul", "dimensionless"]], [["unit", "degF"], ["div", "counts"]]]
+             [["unit", "degC"], ["mul", "dimensionless"]], [["unit", "degF"], ["div", "counts"]],
+             [["unit", "degC"], ["powq", "1/1"]], [["unit", "lat"], ["powq", "2/1"], ["powf", "0.25"]],
+             [["unit", "m"], ["powf", "2.5"]], [["unit", "kg"], ["powf", "-3.5"]], [["unit", "s"], ["powf", "0.1"]], [["unit", "km"], ["powf", "7.25"]],
+             [["unit", "m"], ["powf", "0.3333333333333333"]], [["unit", "m"], ["powf", "1e-3"]], [["unit", "m"], ["powf", "12.0"]]]
     progs = fixed + progs
     with cf.ThreadPoolExecutor(nproc) as tp:
         pparts = [progs[i::nproc] for i in range(nproc)]
